@@ -20,7 +20,7 @@ from fractions import Fraction
 import numpy as np
 
 PROP = 'C02'
-TARGETS = ['T8', 'T8b', 'T8c', 'T8d', 'T8e', 'T8f', 'T8g', 'T8h']
+TARGETS = ['T8', 'T8b', 'T8c', 'T8d', 'T8e', 'T8f', 'T8g', 'T8h', 'T17p']
 LEAN_MODULES = ['HdVerif.Props.C02']
 MODEL_MODULES = ['HdVerif.Model.SegRead', 'HdVerif.Model.SegMeta', 'HdVerif.Model.Effects']
 NAMESPACE = 'HdVerif.C02'
@@ -163,6 +163,11 @@ def _draw_object(ctx, idx):
          'via': r.choice(['memory', 'memory', 'memory', 'file', 'lazy']),
          'density': r.choice([0.15, 0.3, 0.5]), 'overlap': segtype != 'LABELMAP' and r.random() < 0.5,
          'frac_binary': r.random() < 0.4, 'empty_planes': r.random() < 0.5, 'order': None}
+    if segtype == 'FRACTIONAL' and d['mfv'] >= 100 and r.random() < 0.15:
+        # a malformed object (not constructible): MaximumFractionalValue lowered after construction, so stored values exceed
+        # it; the oracle is silent on it, model and implementation must still agree (refusals of the frame transform's
+        # output range check, of the `max() > MaximumFractionalValue` guard, of the binarity test)
+        d['patch_mfv'] = d['mfv'] // 2
     if kind in ('series', 'multiframe') and r.random() < 0.5:
         o = list(range(planes))
         r.shuffle(o)
@@ -251,6 +256,8 @@ def _build(ctx, d):
         **({'max_fractional_value': d['mfv']} if d['type'] == 'FRACTIONAL' else {}), **kw)
     if st == 'err':
         return {'d': d, 'error': seg, 'store': store}
+    if d.get('patch_mfv'):
+        seg.MaximumFractionalValue = d['patch_mfv']
     buf = io.BytesIO()
     seg.save_as(buf)
     blob = buf.getvalue()
@@ -427,6 +434,8 @@ def _expected(obj, rq, plane_masks):
     sel = stack[..., cols]                                   # (K, R, C, len(segs))
     frac = d['type'] == 'FRACTIONAL'
     rescaled = frac and rq['rescale'] and not rq['combine']
+    if d.get('patch_mfv'):
+        return ('either', 'malformed object: stored values exceed the patched MaximumFractionalValue')
     if frac and rq['combine'] and not rq['rescale']:
         return ('either', 'combining FRACTIONAL without rescale is refused by design')
     if rescaled and rq['dtype'] is not None and not rq['dtype'].startswith('float'):
